@@ -27,3 +27,8 @@
 ; substring test (uninterpreted: the standard library is trusted)
 ; sig str_contains : Str Str -> Bool
 (declare-fun str_contains (Str Str) Bool)
+; host part of a "host:port" / "[host]:port" address as net.SplitHostPort computes it (uninterpreted)
+; sig splitok : Str -> Bool
+; sig hostof : Str -> Str
+(declare-fun splitok (Str) Bool)
+(declare-fun hostof (Str) Str)
